@@ -15,6 +15,7 @@
    time / allocation behaviour of the implementation. *)
 From BU Require Import Lib.Bytes CashAddr.CashAddr Base58.Base58 Bech32.Bech32 JsonPb.JsonPb.
 From BU Require Import NoPanic.Slices NoPanic.CashAddrNP NoPanic.Base58NP NoPanic.Bech32NP JsonPb.JsonPbProofs.
+From BU Require Import Gen.Nets Address.Address Wif.Wif HD.HD NoPanic.AddressNP NoPanic.WifNP NoPanic.HDNP.
 
 (* ---------------- CashAddr: DecodeCashAddress, encode ---------------- *)
 Theorem C08_DecodeCashAddress_no_panic : forall str, is_panic (decode_cashaddr str) = false.
@@ -83,6 +84,36 @@ Theorem C08_jsonpb_old_refuted :
     convert_hex_old b64_encode hex_decode hash_from_str (JArr [JStr [97; 98]; JNum [49]]) = Panic 4.
 Proof. exact JsonPbProofs.jsonpb_old_refuted. Qed.
 Print Assumptions C08_jsonpb_old_refuted.
+
+(* ---------------- DecodeAddress (model: Address/Address.v, engineer a-c01) ---------------- *)
+(* every string, every network record, every set of registered legacy ids, whatever ParsePubKey accepts *)
+Theorem C08_DecodeAddress_no_panic :
+  forall (P : Type) (ec_parse : list N -> option P) (net : Nets.net) (reg_pkh reg_sh s : list N),
+    is_panic (decode_address P ec_parse net reg_pkh reg_sh s) = false.
+Proof. exact AddressNP.decode_address_no_panic. Qed.
+Print Assumptions C08_DecodeAddress_no_panic.
+
+(* ---------------- DecodeWIF (model: Wif/Wif.v with checked indices and slices, engineer a-c15) ---------------- *)
+Theorem C08_DecodeWIF_no_panic : forall s, is_panic (decode_wif s) = false.
+Proof. exact WifNP.decode_wif_no_panic. Qed.
+Print Assumptions C08_DecodeWIF_no_panic.
+
+(* ---------------- hdkeychain.NewKeyFromString (model: HD/HD.v, engineer a-c04) ---------------- *)
+(* bchec.ParsePubKey is a dependency: assumed not to panic (observed dynamically) *)
+Theorem C08_NewKeyFromString_no_panic :
+  forall (point : Type) (parse_point : list N -> res point) (dsha : list N -> list N),
+    (forall b, is_panic (parse_point b) = false) ->
+    forall s, is_panic (HD.parse point parse_point dsha s) = false.
+Proof. exact HDNP.parse_no_panic. Qed.
+Print Assumptions C08_NewKeyFromString_no_panic.
+
+(* every slice and index of NewKeyFromString is in range (DoubleHashB returns at least 4 bytes) *)
+Theorem C08_NewKeyFromString_bounds :
+  forall (point : Type) (parse_point : list N -> res point) (dsha : list N -> list N),
+    (forall b, (4 <= length (dsha b))%nat) ->
+    forall s, HDNP.parse_checked point parse_point dsha s = HD.parse point parse_point dsha s.
+Proof. exact HDNP.parse_checked_eq. Qed.
+Print Assumptions C08_NewKeyFromString_bounds.
 
 (* the statements are not vacuous: a 5-bit payload encodes, and the resulting string decodes back
    (so the no-panic theorems cover the accepting path as well as the rejecting ones) *)
